@@ -67,7 +67,8 @@ type TreeShapeListener struct {
 	rest_queryparams_len  []int
 	rest_urlparams_len    []int
 	http_path_query_param string
-	stmt_scope            []interface{} // Endpoint, if, if_else, loop
+	stmt_scope            []interface{}     // Endpoint, if, if_else, loop
+	stmt_scope_mark       []*sysl.Statement // per open scope: its last statement when the scope was entered
 	expr_stack            []*sysl.Expr
 	opmap                 map[string]sysl.Expr_BinExpr_Op
 	currentMultiLineAnno  []string
@@ -1570,17 +1571,22 @@ func (s *TreeShapeListener) TopExpr() *sysl.Expr {
 
 func (s *TreeShapeListener) pushScope(scope interface{}) {
 	s.stmt_scope = append(s.stmt_scope, scope)
+	s.stmt_scope_mark = append(s.stmt_scope_mark, s.lastStatement())
 }
 
 func (s *TreeShapeListener) popScope() {
+	l := len(s.stmt_scope) - 1
 	top := s.lastStatement()
-	if top != nil {
+	// the end of the block closes its last statement only if that statement was added while the block was open: a
+	// block that re-opens an endpoint without adding statements (another file, a later block) must not move the end
+	// of a statement declared elsewhere
+	if top != nil && top != s.stmt_scope_mark[l] {
 		top.SourceContext.End = s.lastEnd //nolint:staticcheck
 		top.SourceContexts[len(top.SourceContexts)-1].End = s.lastEnd
 	}
 
-	l := len(s.stmt_scope) - 1
 	s.stmt_scope = s.stmt_scope[:l]
+	s.stmt_scope_mark = s.stmt_scope_mark[:l]
 }
 
 func (s *TreeShapeListener) peekScope() interface{} {
